@@ -667,3 +667,43 @@ func verifC14BadForms() {
 	vAssert(err == nil && len(z.queries) == 3 && z.queries[0].name == g.qname && z.queries[1].name == "example.com", "URL forms resolve under their RFC 9460 query name and bare host")
 	vReach("good-form")
 }
+
+// verifC14HostileTargets: names that come out of DNS data - the target of an
+// alias-mode or service-mode HTTPS record - are no more trusted than the
+// caller's input: a target with a label over 63 bytes, a name over 253 bytes or
+// an empty label is never put into a query (the DoH hook checks every query
+// name); Resolve fails with ErrInvalidName or ignores the record.
+func verifC14HostileTargets() {
+	long := strings.Repeat("x", 100) + ".net"
+	huge := strings.Repeat(strings.Repeat("y", 60)+".", 9) + "net" // 543 bytes
+	bad := []string{long, huge, "a..b.net", ".net"}[vInt(0, 3)]
+	alias := vBool()
+	z := &vZone{}
+	z.answer = func(q vQuery) (*dns.Message, error) {
+		m := &dns.Message{QR: 1}
+		switch {
+		case q.typ == 65 && q.name == "o.example":
+			prio := uint16(1)
+			if alias {
+				prio = 0
+			}
+			m.Answer = append(m.Answer, dns.RR{Name: q.name, Type: 65, Class: 1, TTL: 60, Data: dns.HTTPS{Priority: prio, Target: bad, ECH: []byte{1}}})
+		case q.typ == 1:
+			m.Answer = append(m.Answer, dns.RR{Name: q.name, Type: 1, Class: 1, TTL: 60, Data: net.IP{10, 0, 0, 1}})
+		}
+		return m, nil
+	}
+	z.install() // asserts on every query: labels of 1..63 bytes, names of at most 253 bytes
+	r := &Resolver{}
+	res, err := r.Resolve(context.Background(), "o.example")
+	for _, q := range z.queries {
+		vAssert(q.name == "o.example", "only the origin is ever queried: a malformed target name is not looked up")
+	}
+	if err != nil {
+		vAssert(errors.Is(err, ErrInvalidName), "a malformed alias target is refused with ErrInvalidName")
+		vReach("hostile-refused")
+		return
+	}
+	vAssert(len(res.Additional[bad]) == 0, "no addresses are attributed to a malformed target")
+	vReach("hostile-ignored")
+}
